@@ -39,19 +39,26 @@ def _check(res, cfg):
     rows, per = SL.expected_rows(res["log"], n_chain, n_warm, n_main, twu)
     n_rec = (n_warm + n_main) if twu else n_main
     probs = []
-    if res["traces"] is None:
+    traced = cfg.get("traced", True)
+    if traced and res["traces"] is None:
         return ["traces missing"]
+    if not traced and res["traces"]:
+        return [f"traces returned although no trace function was given: {list(res['traces'])}"]
     for c in range(n_chain):
-        got = res["traces"]["pos"][c]
-        if len(got) != n_rec:
-            probs.append(f"chain {c}: trace length {len(got)} != recorded iterations {n_rec}")
+        if traced:
+            got = res["traces"]["pos"][c]
+            if len(got) != n_rec:
+                probs.append(f"chain {c}: trace length {len(got)} != recorded iterations {n_rec}")
+                continue
+            if any(isinstance(x, float) and math.isnan(x) for x in got):
+                probs.append(f"chain {c}: fill value survives in trace {got}")
+            if got != rows[c]:
+                probs.append(f"chain {c}: trace rows {got} != post-iteration states {rows[c]}")
+            if res["traces"]["twice"][c] != [2 * x for x in rows[c]]:
+                probs.append(f"chain {c}: second traced quantity wrong")
+        if len(res["stats"]["tok"][c]) != n_rec:
+            probs.append(f"chain {c}: statistics length {len(res['stats']['tok'][c])} != recorded iterations {n_rec}")
             continue
-        if any(isinstance(x, float) and math.isnan(x) for x in got):
-            probs.append(f"chain {c}: fill value survives in trace {got}")
-        if got != rows[c]:
-            probs.append(f"chain {c}: trace rows {got} != post-iteration states {rows[c]}")
-        if res["traces"]["twice"][c] != [2 * x for x in rows[c]]:
-            probs.append(f"chain {c}: second traced quantity wrong")
         if res["stats"]["tok"][c] != rows[c]:
             probs.append(f"chain {c}: statistics rows {res['stats']['tok'][c]} != {rows[c]}")
         if res["stats"]["flag"][c] != [True] * n_rec or any(x < 0 for x in res["stats"]["cnt"][c]):
@@ -74,7 +81,7 @@ def case_configs(rec, configs):
         try:
             res = SL.run(cfg["n_warm"], cfg["n_main"], n_chain=cfg["n_chain"], n_process=cfg["n_process"], trace_warm_up=cfg["trace_warm_up"],
                          stager=cfg["stager"], adapters=cfg["adapters"], force_memmap=cfg["force_memmap"], init=cfg["init"],
-                         assignment=(lambda c: c))
+                         assignment=(lambda c: c), trace_funcs=cfg.get("traced", True))
         except Exception as e:  # noqa: BLE001
             viol.setdefault(f"exception:{type(e).__name__}", (f"{type(e).__name__}: {e}", cfg))
             continue
@@ -152,6 +159,10 @@ def _configs(tier):
                     for fm in ((False, True) if n_process == 1 else (False,)):
                         out.append({"n_warm": n_warm, "n_main": n_main, "n_chain": 2, "trace_warm_up": twu, "stager": stager, "adapters": adapters,
                                     "n_process": n_process, "force_memmap": fm, "init": "dict" if (n_warm + n_main) % 2 else "state"})
+                    if n_process != None and (th or n_warm <= 3):  # noqa: E711
+                        # no trace functions at all: statistics are still recorded for exactly the requested iterations
+                        out.append({"n_warm": n_warm, "n_main": n_main, "n_chain": 2, "trace_warm_up": twu, "stager": stager, "adapters": adapters,
+                                    "n_process": n_process, "force_memmap": False, "init": "dict", "traced": False})
     return out
 
 
@@ -170,7 +181,8 @@ def replay(cand):
         cfg = p["cfg"]
         try:
             res = SL.run(cfg["n_warm"], cfg["n_main"], n_chain=cfg["n_chain"], n_process=cfg["n_process"], trace_warm_up=cfg["trace_warm_up"],
-                         stager=cfg["stager"], adapters=cfg["adapters"], force_memmap=cfg["force_memmap"], init=cfg["init"])
+                         stager=cfg["stager"], adapters=cfg["adapters"], force_memmap=cfg["force_memmap"], init=cfg["init"],
+                         trace_funcs=cfg.get("traced", True))
         except Exception as e:  # noqa: BLE001
             return {"reproduced": True, "detail": f"{type(e).__name__}: {e} for configuration {cfg}"}
         pr = _check(res, cfg)
